@@ -372,16 +372,24 @@ Proof.
   - apply IH; [assumption|lia].
 Qed.
 
-Lemma zero_of_eq E t : zero_of E t = zero 50 E t.
+Lemma zero_of_unf E t : zero_of E t = zero (S 49) E t.
+Proof. reflexivity. Qed.
+
+Lemma zero_S_named E n i u : zero (S n) E (GNamed i u) = zero n E u.
+Proof. reflexivity. Qed.
+
+Lemma zero_S_struct E n id :
+  zero (S n) E (GStruct id) =
+  match env_fields E id with Some fs => VStruct (map (zero n E) fs) | None => VBadV end.
 Proof. reflexivity. Qed.
 
 Lemma zero_of_stable E n t :
   no_bad (zero n E t) = true -> (n <= 50)%nat -> zero_of E t = zero n E t.
-Proof. intros H Hle. apply zero_stable; assumption. Qed.
+Proof. intros H Hle. unfold zero_of. apply zero_stable; assumption. Qed.
 
 Lemma zero_of_named E i u : no_bad (zero_of E (GNamed i u)) = true -> zero_of E (GNamed i u) = zero_of E u.
 Proof.
-  intros H. change (zero_of E (GNamed i u)) with (zero 49 E u) in *.
+  intros H. rewrite zero_of_unf, zero_S_named in *.
   symmetry. apply zero_of_stable; [exact H | lia].
 Qed.
 
@@ -396,9 +404,12 @@ Lemma zero_of_struct E t id fts :
   no_bad (zero_of E t) = true -> strip_named t = GStruct id -> env_fields E id = Some fts ->
   zero_of E t = VStruct (map (zero_of E) fts) /\ forallb (fun ft => no_bad (zero_of E ft)) fts = true.
 Proof.
-  intros H Hs He. rewrite (zero_of_strip E t H) in *. rewrite Hs in *.
-  change (zero_of E (GStruct id)) with (match env_fields E id with Some fs => VStruct (map (zero 49 E) fs) | None => VBadV end) in *.
-  rewrite He in *. cbn [no_bad] in H. rewrite forallb_forall in H.
+  intros H0 Hs He.
+  assert (Hq : zero_of E t = VStruct (map (zero 49 E) fts)).
+  { rewrite (zero_of_strip E t H0), Hs, zero_of_unf, zero_S_struct, He. reflexivity. }
+  assert (H : forallb no_bad (map (zero 49 E) fts) = true).
+  { rewrite Hq in H0. exact H0. }
+  rewrite Hq. clear Hq H0. rewrite forallb_forall in H.
   assert (Hx : forall ft, In ft fts -> zero_of E ft = zero 49 E ft /\ no_bad (zero_of E ft) = true).
   { intros ft Hin. assert (Hn : no_bad (zero 49 E ft) = true) by (apply H; apply in_map; exact Hin).
     rewrite (zero_of_stable E 49 ft Hn) by lia. auto. }
